@@ -1,5 +1,6 @@
 import RxProofs.Lemmas.OpsElem
 import RxModel.OpsVal
+import RxProofs.Lemmas.OpsFbElem
 /-!
 # C05 — element-wise operators match their list semantics
 
@@ -402,6 +403,119 @@ theorem take_last_timed (lag : Bool) (n : Nat) (xs : List α) (rest : List (Noti
     rw [emitted_at, e1, e2, sem_takeLast, sem_takeLast]
     simp only [List.take_length, elems_map_next, fin_map_next, elems_outSeq, fin_outSeq]
     simp [outSeq, End.toNotifs]
+
+/-! ## Re-entrant feedback sources
+
+The consumer pushes the next pending element into the (Subject) source from inside its own `on_next`, so the
+operator's handler is re-entered while it is still inside its downstream call (`ROp.runFb`, `RxModel/OpsFb.lean`:
+handlers split at their downstream calls as the code has them; terminals are pushed from the top level).  For every
+operator that commits its state before emitting (`ROp.Safe`), for **every input list and every nesting bound**, the
+subscriber sees the list reference on the combined arrival sequence. -/
+
+/-- **fb_eq_sequential.** state committed before the downstream call ⇒ re-entrant run = sequential run of the arrival order -/
+theorem fb_eq_sequential (r : ROp α β) (sf : r.Safe) (bound : Nat) (raw : List (Notif α)) :
+    r.runFb bound raw = visible (r.toOp.run false raw) := by
+  rw [runFb_eq_sem r sf, run_sem]
+
+theorem map_fb (bound : Nat) (f : α → Except Err β) (raw : List (Notif α)) :
+    (mapR f).runFb bound raw = refMap f (elems raw) (fin raw) := by
+  rw [runFb_eq_sem _ (mapR_safe f), mapR_toOp, sem_map]
+theorem filter_fb (bound : Nat) (p : α → Except Err Bool) (raw : List (Notif α)) :
+    (filterR p).runFb bound raw = refFilter p (elems raw) (fin raw) := by
+  rw [runFb_eq_sem _ (filterR_safe p), filterR_toOp, sem_filter]
+theorem filter_indexed_fb (bound : Nat) (p : α → Nat → Except Err Bool) (raw : List (Notif α)) :
+    (filterIndexedR (some p)).runFb bound raw = refFilterIdx p 0 (elems raw) (fin raw) := by
+  rw [runFb_eq_sem _ (filterIndexedR_safe _), filterIndexedR_toOp, sem_filterIndexed]
+/-- `take(n)`: `remaining` is decremented before the element is emitted, so a re-entered handler sees the new count -/
+theorem take_fb (bound : Nat) (n : Nat) (raw : List (Notif α)) :
+    (takeR n).runFb bound raw
+      = outSeq ((elems raw).take n) (if n ≤ (elems raw).length then .completed else fin raw) := by
+  rw [runFb_eq_sem _ (takeR_safe n), takeR_toOp, sem_take]
+theorem skip_fb (bound : Nat) (n : Nat) (raw : List (Notif α)) :
+    (skipR n).runFb bound raw = outSeq ((elems raw).drop n) (fin raw) := by
+  rw [runFb_eq_sem _ (skipR_safe n), skipR_toOp, sem_skip]
+theorem take_while_fb (bound : Nat) (p : α → Except Err Bool) (incl : Bool) (raw : List (Notif α)) :
+    (takeWhileR p incl).runFb bound raw = refTakeWhile p incl (elems raw) (fin raw) := by
+  rw [runFb_eq_sem _ (takeWhileR_safe p incl), takeWhileR_toOp, sem_takeWhile]
+theorem take_while_indexed_fb (bound : Nat) (p : α → Nat → Except Err Bool) (incl : Bool) (raw : List (Notif α)) :
+    (takeWhileIndexedR p incl).runFb bound raw = refTakeWhileIdx p incl 0 (elems raw) (fin raw) := by
+  rw [runFb_eq_sem _ (takeWhileIndexedR_safe p incl), takeWhileIndexedR_toOp, sem_takeWhileIndexed]
+theorem skip_while_fb (bound : Nat) (p : α → Except Err Bool) (raw : List (Notif α)) :
+    (skipWhileR p).runFb bound raw = refSkipWhile p (elems raw) (fin raw) := by
+  rw [runFb_eq_sem _ (skipWhileR_safe p), skipWhileR_toOp, sem_skipWhile]
+theorem distinct_fb (bound : Nat) (key : α → Except Err κ) (cmp : κ → κ → Except Err Bool) (raw : List (Notif α)) :
+    (distinctR key cmp).runFb bound raw = refDistinct key cmp [] (elems raw) (fin raw) := by
+  rw [runFb_eq_sem _ (distinctR_safe key cmp), distinctR_toOp, sem_distinct]
+theorem distinct_until_changed_fb (bound : Nat) (key : α → Except Err κ) (cmp : κ → κ → Except Err Bool)
+    (raw : List (Notif α)) :
+    (distinctUntilChangedR key cmp).runFb bound raw = refDUC key cmp none (elems raw) (fin raw) := by
+  rw [runFb_eq_sem _ (ducR_safe key cmp), ducR_toOp, sem_duc]
+theorem pairwise_fb (bound : Nat) (raw : List (Notif α)) :
+    (pairwiseR (α := α)).runFb bound raw = outSeq ((elems raw).zip (elems raw).tail) (fin raw) := by
+  rw [runFb_eq_sem _ pairwiseR_safe, pairwiseR_toOp, sem_pairwise]
+theorem start_with_fb (bound : Nat) (args : List α) (raw : List (Notif α)) :
+    (startWithR args).runFb bound raw = outSeq (args ++ elems raw) (fin raw) := by
+  rw [runFb_eq_sem _ (startWithR_safe args), startWithR_toOp, sem_startWith]
+theorem default_if_empty_fb (bound : Nat) (d : α) (raw : List (Notif α)) :
+    (defaultIfEmptyR d).runFb bound raw
+      = outSeq (if (elems raw).isEmpty = true ∧ fin raw = .completed then [d] else elems raw) (fin raw) := by
+  rw [runFb_eq_sem _ (defaultIfEmptyR_safe d), defaultIfEmptyR_toOp, sem_defaultIfEmpty]
+theorem ignore_elements_fb (bound : Nat) (raw : List (Notif α)) :
+    (ignoreElementsR (α := α)).runFb bound raw = outSeq [] (fin raw) := by
+  rw [runFb_eq_sem _ ignoreElementsR_safe, ignoreElementsR_toOp, sem_ignoreElements]
+theorem take_last_fb (bound : Nat) (count : Int) (raw : List (Notif α)) :
+    (takeLastR count).runFb bound raw
+      = outSeq (if fin raw = .completed then lastN count.toNat (elems raw) else []) (fin raw) := by
+  rw [runFb_eq_sem _ (takeLastR_safe count), takeLastR_toOp, sem_takeLast]
+theorem skip_last_fb (bound : Nat) (count : Int) (raw : List (Notif α)) :
+    (skipLastR count).runFb bound raw = outSeq (butLastN count.toNat (elems raw)) (fin raw) := by
+  rw [runFb_eq_sem _ (skipLastR_safe count), skipLastR_toOp, sem_skipLast]
+theorem take_last_buffer_fb (bound : Nat) (count : Int) (raw : List (Notif α)) :
+    (takeLastBufferR count).runFb bound raw
+      = outSeq (if fin raw = .completed then [lastN count.toNat (elems raw)] else []) (fin raw) := by
+  rw [runFb_eq_sem _ (takeLastBufferR_safe count), takeLastBufferR_toOp, sem_takeLastBuffer]
+/-- `element_at` (after c373a15): "found" is committed before the element is emitted -/
+theorem element_at_fb (bound : Nat) (index : Nat) (dflt : Option α) (raw : List (Notif α)) :
+    (elementAtOrDefaultR index dflt).runFb bound raw = refElementAt index dflt (elems raw) (fin raw) := by
+  rw [runFb_eq_sem _ (elementAtR_safe index dflt), elementAtR_toOp, sem_elementAt]
+/-- `find` / `find_index` (after 8cbe136) -/
+theorem find_fb (bound : Nat) (p : α → Nat → Except Err Bool) (yes : α → Nat → β) (no : β) (raw : List (Notif α)) :
+    (findValueR p yes no).runFb bound raw = refFind p yes no 0 (elems raw) (fin raw) := by
+  rw [runFb_eq_sem _ (findValueR_safe p yes no), findValueR_toOp, sem_find]
+theorem materialize_fb (bound : Nat) (raw : List (Notif α)) :
+    (materializeR (α := α)).runFb bound raw = refMaterialize (elems raw) (fin raw) := by
+  rw [runFb_eq_sem _ materializeR_safe, materializeR_toOp, sem_materialize]
+theorem dematerialize_fb (bound : Nat) (raw : List (Notif (Notif α))) :
+    (dematerializeR (α := α)).runFb bound raw = cut (elems raw ++ (fin raw).toNotifs) := by
+  rw [runFb_eq_sem _ dematerializeR_safe, dematerializeR_toOp, sem_dematerialize]
+theorem scan_seed_fb (bound : Nat) (f : β → α → Except Err β) (seed : β) (raw : List (Notif α)) :
+    (scanSeedR f seed).runFb bound raw = refScan f seed (elems raw) (fin raw) := by
+  rw [runFb_eq_sem _ (scanSeedR_safe f seed), scanSeedR_toOp, sem_scanSeed]
+
+/-! ### what goes wrong when the state is committed *after* the downstream call (seeded change C07r2_2, and the
+`element_at` / `find` of the tree before c373a15 / 8cbe136) -/
+section Unsafe
+
+/-- `take` whose decrement is not committed before `observer.on_next(value)` (the shape of seeded change C07r2_2; the
+late write itself is outside `HOutR`, which has no post-call state write — enough for one feedback chain): the
+re-entered handler still sees the old count -/
+def takeLateR (count : Nat) : ROp Nat Nat where
+  σ := Nat
+  init := count
+  onNext := fun remaining v =>
+    if remaining > 0 then ⟨remaining, [.next v], fun _ => if remaining - 1 = 0 then [.completed] else []⟩
+    else remit remaining []
+  onError := rpassErr
+  onCompleted := rpassDone
+
+/-- on a feedback source `take(1)` written that way lets every fed-back element through … -/
+theorem take_late_counter :
+    (takeLateR 1).runFb 40 [.next 0, .next 1, .next 2, .completed] = [.next 0, .next 1, .next 2, .completed] := by decide
+
+/-- … whereas the real `take(1)` (decrement first) gives the list semantics -/
+example : (takeR (α := Nat) 1).runFb 40 [.next 0, .next 1, .next 2, .completed] = [.next 0, .completed] := by decide
+
+end Unsafe
 
 /-! ## The pinned tree's `skip_last` (before the fix) violates the property
 
